@@ -15,7 +15,9 @@ correspondence run):
 * a file that does not exist, or is empty, is a database without tables (what `sqlite3.connect` makes of it);
   a file on which `PRAGMA integrity_check` raises `DatabaseError` or answers anything but `ok` is `garbage`;
 * table layouts: the expected one, the same columns without the primary key (`noPk`: statements work,
-  `INSERT OR REPLACE` appends), anything else (`alien`: every statement of `parse` on it raises);
+  `INSERT OR REPLACE` appends), the expected columns plus a NOT NULL column without default (`extraCol`:
+  SELECT/UPDATE/DELETE work, the INSERT of `parse` raises), anything else (`alien`: every statement of
+  `parse` on it raises);
 * rows are kept in rowid order; time is in microseconds.
 -/
 namespace PymocaVerif.ParseCache
@@ -54,6 +56,9 @@ structure Cfg where
   /-- `parse` catches a `DatabaseError` of the lookup in a process that had already initialised the database,
       discards the path from `initialized_dbs` and starts over once (the shape of proposed fix C01-1) -/
   recover : Bool := false
+  /-- a `DatabaseError` of the cache *write* (the insert of a fresh tree) is not propagated: the tree is returned
+      and the earlier check of the database is forgotten (the shape of proposed fix C01-2) -/
+  writeTolerant : Bool := false
   deriving Repr
 
 def Cfg.isCaught (cfg : Cfg) (e : Exc) : Bool := cfg.caught.any (catches · e)
@@ -70,7 +75,7 @@ structure Row where
   lastHit : Int
   deriving DecidableEq, Repr
 
-inductive Layout | ok | noPk | alien
+inductive Layout | ok | noPk | extraCol | alien
   deriving DecidableEq, Repr
 
 structure Models where
@@ -175,6 +180,7 @@ def txInsert (x : TextId) (v : Ver) (tree : TreeId) (t : Int) (f : DbFile) : Exc
   match f.queryable with
   | none => .error .db
   | some m =>
+    if m.layout = .extraCol then .error .db else     -- NOT NULL constraint failed (IntegrityError)
     let new : Row := ⟨x, v, .good (some tree), t⟩
     .ok (f.setRows ((if m.layout = .ok then m.rows.filter (fun r => !matches_ x v r) else m.rows) ++ [new]))
 
@@ -204,7 +210,7 @@ def initBlock (s : St) (days : Int) : Except (St × Err) St :=
   | .ok f => .ok { s with file := f, init := true }
 
 /-- the part of `parse` after `tree = None` was possibly replaced by the unpickled entry. -/
-def finish (pf : Ver → TextId → Option TreeId) (s : St) (x : TextId) (tree : Option TreeId) : St × Res :=
+def finish (cfg : Cfg) (pf : Ver → TextId → Option TreeId) (s : St) (x : TextId) (tree : Option TreeId) : St × Res :=
   match tree with
   | some t => (s, .value (some t))
   | none =>
@@ -213,7 +219,7 @@ def finish (pf : Ver → TextId → Option TreeId) (s : St) (x : TextId) (tree :
     | some t =>
       let (ti, s) := s.read
       match txInsert x s.ver t ti s.file with
-      | .error e => (s, .raised e)
+      | .error e => if cfg.writeTolerant then ({ s with init := false }, .value (some t)) else (s, .raised e)
       | .ok f => ({ s with file := f }, .value (some t))
 
 /-- the `yesterday` read and the conditional `UPDATE … last_hit` of a found entry -/
@@ -231,14 +237,14 @@ def touchStep (s : St) (x : TextId) (upd : Bool) (lastHit : Int) : Except (St ×
 def afterInit (cfg : Cfg) (pf : Ver → TextId → Option TreeId) (s : St) (x : TextId) (upd : Bool) : St × Res :=
   match txLookup x s.ver s.file with
   | .error e => (s, .raised e)
-  | .ok none => finish pf s x none
+  | .ok none => finish cfg pf s x none
   | .ok (some (lastHit, blob)) =>
     match touchStep s x upd lastHit with
     | .error (s, e) => (s, .raised e)
     | .ok s =>
       match blob with
-      | .good t => finish pf s x t
-      | .bad e => if cfg.isCaught e then finish pf s x none else (s, .raised (.unpickle e))
+      | .good t => finish cfg pf s x t
+      | .bad e => if cfg.isCaught e then finish cfg pf s x none else (s, .raised (.unpickle e))
 
 /-- `parse(txt, cache_expiration_days=days, always_update_last_hit=upd)` with a clean version.
     With `cfg.recover`: when the process had the database initialised and the lookup raises (the `models`
@@ -259,7 +265,7 @@ def parseCached (cfg : Cfg) (pf : Ver → TextId → Option TreeId) (s : St) (x 
 inductive Tbl | models | metadata
   deriving DecidableEq, Repr
 
-inductive LayoutDamage | drop | alien | noPk | delCreated | delPrune
+inductive LayoutDamage | drop | alien | noPk | extraCol | delCreated | delPrune
   deriving DecidableEq, Repr
 
 inductive FileDamage | delete | empty | text | header | freelist
@@ -285,12 +291,15 @@ def damageLayout (t : Tbl) (how : LayoutDamage) : DbFile → DbFile
     | .models, .alien => .db (some ⟨.alien, []⟩) mt
     | .models, .noPk =>
       .db (some ⟨.noPk, match m with | some mm => (if mm.layout = .alien then [] else mm.rows) | none => []⟩) mt
+    | .models, .extraCol =>
+      .db (some ⟨.extraCol, match m with | some mm => (if mm.layout = .alien then [] else mm.rows) | none => []⟩) mt
     | .models, _ => .db m mt
     | .metadata, .drop => .db m none
     | .metadata, .alien => .db m (some .alien)
     | .metadata, .delCreated => .db m (match mt with | some (.ok _ p) => some (.ok none p) | o => o)
     | .metadata, .delPrune => .db m (match mt with | some (.ok c _) => some (.ok c none) | o => o)
     | .metadata, .noPk => .db m mt
+    | .metadata, .extraCol => .db m mt
 
 /-- `freelist`: a header field is changed so that the file still opens and its tables can be read, but
     `PRAGMA integrity_check` answers rows other than `ok` (no exception) — `parse` then raises the
